@@ -269,6 +269,8 @@ fn resample_by_spacing(curve: &Curve3, spacing: f64) -> Curve3 {
     let mut positions = Vec::new();
     let mut length = 0.0;
     while length < curve.length() {
+        #[cfg(feature = "verif")]
+        crate::verif::tick();
         positions.push(length);
         length += spacing;
     }
